@@ -15,6 +15,10 @@ git apply $S/patch.diff || { echo "PATCH DOES NOT APPLY"; exit 2; }
 go build ./bcs/... ./kernel/... ./lib/crypto/... ./lib/cache/... ./lib/logs/... ./lib/utils/... > /tmp/seed_build.txt 2>&1; B=$?
 go test -vet=off -count=1 -run "$RX" ./$PKG > /tmp/seed_demo_with.txt 2>&1; W1=$?
 rm -f $PKG/zz_seed_demo_test.go
+# the existing tests of the touched packages must still pass with the change (the always-failing wasm2c test aside)
+TP=$(grep '^+++ b/' $S/patch.diff | sed 's|^+++ b/||; s|/[^/]*$||' | sort -u | sed 's|^|./|' | tr '\n' ' ')
+go test -vet=off -count=1 $TP 2>&1 | grep -v "^ok\|no test files" | grep -v "TestStateWorkWithLedger\|wasm2c" | grep "^--- FAIL\|^panic" > /tmp/seed_pkgtests.txt
+echo "seed $ID: touched packages [$TP] unexpected test failures: $(grep -c . /tmp/seed_pkgtests.txt) $(grep '^--- FAIL' /tmp/seed_pkgtests.txt | tr '\n' ' ')"
 echo "seed $ID: demo without change exit=$W0 (want 0); build with change exit=$B (want 0); demo with change exit=$W1 (want !=0)"
 mkdir -p /verif/seeded/$ID
 cp $S/patch.diff /verif/seeded/$ID/patch.diff
